@@ -51,6 +51,14 @@ Proof.
   pose proof (hd_Forall2_Qeq _ _ IH) as Hh. cbn [s_nnt]. rewrite Hh. reflexivity.
 Qed.
 
+Lemma gae_exec_code g l steps : Forall2 Qeq (gae_exec g l steps) (gae_code g l steps).
+Proof.
+  induction steps as [|s rest IH]; cbn [gae_exec gae_code]; [constructor|].
+  constructor; [|exact IH].
+  etransitivity; [apply Qred_correct|].
+  pose proof (hd_Forall2_Qeq _ _ IH) as Hh. rewrite Hh. reflexivity.
+Qed.
+
 (* ---------- the recursion equals the discounted-sum definition ---------- *)
 
 Lemma qsum_ext f h n : (forall k, (k < n)%nat -> f k == h k) -> qsum f n == qsum h n.
